@@ -69,7 +69,32 @@ func agentID(i int) (id [12]byte) {
 
 var agentT0 = time.Date(2024, 1, 1, 0, 0, 0, 0, time.UTC)
 
-func agentTime(k int) time.Time { return agentT0.Add(time.Duration(k) * time.Second) }
+// agentTime: 1..5 are one second apart; 0 is the zero time.Time, 6 the year 3000, 7 the year 1700 (outside the
+// range a 64-bit nanosecond count can hold).
+func agentTime(k int) time.Time {
+	switch k {
+	case 0:
+		return time.Time{}
+	case 6:
+		return time.Date(3000, 1, 1, 0, 0, 0, 0, time.UTC)
+	case 7:
+		return time.Date(1700, 1, 1, 0, 0, 0, 0, time.UTC)
+	}
+	return agentT0.Add(time.Duration(k) * time.Second)
+}
+
+// agentTimeRank orders the time points for the reference model.
+func agentTimeRank(k int) int64 {
+	switch k {
+	case 0:
+		return -1000
+	case 7:
+		return -500
+	case 6:
+		return 1000
+	}
+	return int64(k)
+}
 
 var errCustomStop = errors.New("custom stop error")
 
@@ -94,6 +119,9 @@ func agentAlphabet() []agentOp {
 	for t := 1; t <= 5; t++ {
 		ops = append(ops, agentOp{Kind: "collect", T: t})
 	}
+	// extreme time points: a "never" deadline, the zero time, and collect times far outside the 1678..2262 range
+	ops = append(ops, agentOp{Kind: "start", ID: 0, T: 6}, agentOp{Kind: "start", ID: 1, T: 0}, agentOp{Kind: "start", ID: 2, T: 7},
+		agentOp{Kind: "collect", T: 6}, agentOp{Kind: "collect", T: 7}, agentOp{Kind: "collect", T: 0})
 	ops = append(ops, agentOp{Kind: "sethandler", H: 1}, agentOp{Kind: "sethandler", H: 2}, agentOp{Kind: "close"})
 	return ops
 }
@@ -213,7 +241,7 @@ func (r *agentRun) apply(op agentOp) (key, detail string) {
 	switch op.Kind {
 	case "start":
 		err = r.a.Start(id, agentTime(op.T))
-		wantRet = r.model.Start(name, int64(op.T))
+		wantRet = r.model.Start(name, agentTimeRank(op.T))
 	case "stop":
 		err = r.a.Stop(id)
 		wantRet, wantEv = r.model.Stop(name, "ErrTransactionStopped")
@@ -226,7 +254,7 @@ func (r *agentRun) apply(op agentOp) (key, detail string) {
 		wantRet, wantEv = r.model.Process(name, "the-message")
 	case "collect":
 		err = r.a.Collect(agentTime(op.T))
-		wantRet, wantEv = r.model.Collect(int64(op.T))
+		wantRet, wantEv = r.model.Collect(agentTimeRank(op.T))
 	case "sethandler":
 		err = r.a.SetHandler(r.hs[op.H])
 		wantRet = r.model.SetHandler(op.H)
@@ -256,9 +284,9 @@ func (r *agentRun) apply(op agentOp) (key, detail string) {
 		case 1:
 			nret, nev = r.model.Stop(id, "ErrTransactionStopped")
 		case 2:
-			nret = r.model.Start(id, 4)
+			nret = r.model.Start(id, agentTimeRank(4))
 		case 3:
-			nret, nev = r.model.Collect(5)
+			nret, nev = r.model.Collect(agentTimeRank(5))
 		case 4:
 			nret, nev = r.model.Process(id, "another-message")
 		}
@@ -294,6 +322,54 @@ func c13RunSeqMode(ops []agentOp, reentry int) (r *agentRun, key, detail string)
 	})
 	if p != "" {
 		return r, "panic", fmt.Sprintf("%s in %v", p, ops)
+	}
+	return
+}
+
+// c13Nested: ko transactions expire at the outer Collect, kn more at a Collect issued from the handler of the
+// first outer event; every one of them must get exactly one timeout and nothing else.
+func c13Nested(ko, kn int) (key, detail string) {
+	p := catch(func() {
+		counts := map[[12]byte]int{}
+		var a *stun.Agent
+		nested := false
+		a = stun.NewAgent(func(e stun.Event) {
+			if errors.Is(e.Error, stun.ErrTransactionTimeOut) {
+				counts[e.TransactionID]++
+			}
+			if !nested {
+				nested = true
+				_ = a.Collect(agentTime(5))
+			}
+		})
+		for i := 0; i < ko; i++ {
+			_ = a.Start(agentID(10+i), agentTime(1))
+		}
+		for i := 0; i < kn; i++ {
+			_ = a.Start(agentID(100+i), agentTime(4))
+		}
+		if err := a.Collect(agentTime(2)); err != nil {
+			key, detail = "nested-collect/return", err.Error()
+			return
+		}
+		if ko == 0 {
+			_ = a.Collect(agentTime(5))
+		}
+		for i := 0; i < ko; i++ {
+			if counts[agentID(10+i)] != 1 {
+				key, detail = "nested-collect/events", fmt.Sprintf("outer Collect with %d expired ids, Collect from the first handler with %d more: outer id %d got %d timeout events, want 1 (all counts: %d ids)", ko, kn, i, counts[agentID(10+i)], len(counts))
+				return
+			}
+		}
+		for i := 0; i < kn; i++ {
+			if counts[agentID(100+i)] != 1 {
+				key, detail = "nested-collect/events", fmt.Sprintf("outer Collect with %d expired ids, nested Collect with %d: nested id %d got %d timeout events, want 1", ko, kn, i, counts[agentID(100+i)])
+				return
+			}
+		}
+	})
+	if p != "" {
+		return "panic", p
 	}
 	return
 }
@@ -499,6 +575,20 @@ func init() {
 					}
 				}
 			}
+			// 4. Collect from inside a timeout handler, both collecting several ids
+			if c.Shard == 0 {
+				for ko := 0; ko <= 4; ko++ {
+					for kn := 0; kn <= 4; kn++ {
+						c.Eval(1)
+						c.DistinctByConstruction++
+						if key, d := c13Nested(ko, kn); key != "" {
+							c.Violation(key, d, map[string]int{"nested_ko": ko, "nested_kn": kn})
+						} else {
+							c.Outcome("nested-collect")
+						}
+					}
+				}
+			}
 			c.Extra("enumeration_depth", float64(depth))
 			c.Extra("alphabet_size", float64(len(alpha)))
 			if len(c.Res.Samples) == 0 {
@@ -506,6 +596,16 @@ func init() {
 			}
 		},
 		Replay: func(c *Ctx, p json.RawMessage) {
+			var nest struct {
+				Ko *int `json:"nested_ko"`
+				Kn int  `json:"nested_kn"`
+			}
+			if json.Unmarshal(p, &nest) == nil && nest.Ko != nil {
+				if key, d := c13Nested(*nest.Ko, nest.Kn); key != "" {
+					c.Violation(key, d, map[string]int{"nested_ko": *nest.Ko, "nested_kn": nest.Kn})
+				}
+				return
+			}
 			var many struct {
 				N *int `json:"many_n"`
 				K int  `json:"many_k"`
